@@ -18,6 +18,7 @@ import (
 	"github.com/megaease/easegress/pkg/protocols/httpprot/httpstat"
 	"github.com/megaease/easegress/pkg/supervisor"
 	"github.com/megaease/easegress/pkg/util/stringtool"
+	"github.com/tomasen/realip"
 )
 
 // C05 harness (enforcement level): one HTTP server spec with IP filters at the
@@ -122,7 +123,8 @@ type c05MIn struct {
 	Filter    *c05MFilter   `json:"filter,omitempty"`
 	Rules     []c05MRule    `json:"rules"`
 	CacheSize int           `json:"cacheSize"`
-	Backends  []string      `json:"backends"` // names the MuxMapper knows
+	XFwdFor   bool          `json:"xForwardedFor,omitempty"` // server option xForwardedFor
+	Backends  []string      `json:"backends"`                // names the MuxMapper knows
 	Gens      []c05MGenSpec `json:"gens,omitempty"`
 	Reqs      []c05MReq     `json:"reqs"`
 	Orc       *c05MOrc      `json:"orc,omitempty"`
@@ -195,6 +197,9 @@ func c05MSpec(in *c05MIn, erase bool, cacheSize int, gen int) string {
 	srv := map[string]interface{}{
 		"kind": "HTTPServer", "name": "c05", "port": 10080, "keepAlive": true, "https": false,
 		"cacheSize": cacheSize,
+	}
+	if in.XFwdFor {
+		srv["xForwardedFor"] = true
 	}
 	// filters of the generation
 	sf := in.Filter
@@ -402,8 +407,10 @@ func c05MRun(in *c05MIn) (obs c05MObs) {
 		}
 		inst := on.m.inst.Load().(*muxInstance)
 		// oracles on a private copy of the request
-		preq, _ := httpprot.NewRequest(c05MStdReq(rq))
-		ro := c05MReqOrc{RealIP: preq.RealIP()}
+		pstd := c05MStdReq(rq)
+		received := realip.FromRequest(pstd) // client identity of the request as received
+		preq, _ := httpprot.NewRequest(pstd)
+		ro := c05MReqOrc{RealIP: received}
 		if ip := net.ParseIP(ro.RealIP); ip != nil {
 			ro.IPOK = true
 			if ip4 := ip.To4(); ip4 != nil {
@@ -460,9 +467,17 @@ var c05MNets = []c05MNet{
 	{"0.0.0.0/0", []string{"52.10.0.1", "9.9.9.9"}},
 	{"::/0", []string{"2001:db9::1", "2a00::1"}},
 	{"52.10.77.2/31", []string{"52.10.77.3", "52.10.77.2"}},
+	{"192.168.0.0/16", []string{"192.168.1.1", "192.168.77.3"}},
+	{"127.0.0.0/8", []string{"127.0.0.1"}},
+	{"169.254.0.0/16", []string{"169.254.10.1"}},
+	{"172.16.0.0/12", []string{"172.20.1.1"}},
+	{"fd00::/8", []string{"fd00::10", "fd12:3456::1"}},
+	{"fe80::/10", []string{"fe80::1"}},
+	{"::1", []string{"::1"}},
+	{"fd00::10", []string{"fd00::10"}},
 }
 
-var c05MOutside = []string{"9.9.9.9", "52.11.0.0", "52.10.78.0", "8.8.10.0", "2001:dba::1", "2a00::1", "52.10.77.4", "10.0.0.9", "11.0.0.1"}
+var c05MOutside = []string{"192.168.2.2", "127.0.0.2", "fd00::11", "fe80::2", "172.32.0.1", "9.9.9.9", "52.11.0.0", "52.10.78.0", "8.8.10.0", "2001:dba::1", "2a00::1", "52.10.77.4", "10.0.0.9", "11.0.0.1"}
 
 func c05MGenFilter(r *vfRand, pool *[]string) *c05MFilter {
 	f := &c05MFilter{Def: r.Chance(1, 3)}
@@ -475,6 +490,11 @@ func c05MGenFilter(r *vfRand, pool *[]string) *c05MFilter {
 		}
 		*dst = append(*dst, n.cidr)
 		*pool = append(*pool, n.inside...)
+	}
+	if r.Chance(1, 8) {
+		// no entries at all: blockByDefault true refuses everybody, false nobody
+		f.Def = r.Chance(2, 3)
+		return f
 	}
 	switch r.Intn(5) {
 	case 0: // allow list only, block by default
@@ -505,6 +525,7 @@ func c05MGen(r *vfRand, adv bool) c05MIn {
 	var in c05MIn
 	pool := []string{}
 	in.CacheSize = r.PickInt(1, 2, 8, 100, 100)
+	in.XFwdFor = r.Bool()
 	in.Backends = []string{"A", "B", "C", "D", "H"}
 	pf := 3 // one in pf levels carries a filter
 	if adv {
@@ -684,7 +705,7 @@ func c05MGen(r *vfRand, adv bool) c05MIn {
 		ip := pool[r.Intn(len(pool))]
 		other := pool[r.Intn(len(pool))]
 		rq.Remote = "192.0.2.1:4000"
-		switch r.Intn(8) {
+		switch r.Intn(10) {
 		case 0, 1, 2: // RemoteAddr only
 			if strings.Contains(ip, ":") {
 				rq.Remote = "[" + ip + "]:5123"
@@ -697,9 +718,26 @@ func c05MGen(r *vfRand, adv bool) c05MIn {
 			rq.XFF = ip
 		case 6: // first public address of the list wins; private ones are skipped by realip
 			rq.XFF = "192.168.1.1, " + ip + ", " + other
-		default:
+		case 7:
 			rq.XFF = ip
 			rq.XRealIP = other
+		default:
+			switch r.Intn(4) {
+			case 0: // private-only chain, no X-Real-IP: realip yields ""
+				rq.XFF = "192.168.1.1, 10.0.0.8"
+			case 1: // private-only chain, X-Real-IP decides
+				rq.XFF = "10.1.1.1,fd00::10"
+				rq.XRealIP = ip
+			case 2: // several public addresses: the first one counts
+				rq.XFF = ip + "," + other + ", 9.9.9.9"
+			default: // headers present but the peer address is the pool address
+				rq.XFF = other
+				if strings.Contains(ip, ":") {
+					rq.Remote = "[" + ip + "]:5123"
+				} else {
+					rq.Remote = ip + ":5123"
+				}
+			}
 		}
 		if r.Chance(1, 25) { // unparsable client address
 			rq.XFF, rq.XRealIP, rq.Remote = "", r.PickStr("bogus", "1.2.3", "52.10.77.3x"), "192.0.2.1:4000"
